@@ -13,6 +13,8 @@ pub fn exec(t: &[&str]) -> Option<String> {
             let ty = match *k { "Standard" => AddressType::Standard, "Integrated" => AddressType::Integrated(PaymentId([7; 8])), "SubAddress" => AddressType::SubAddress, _ => return None };
             Some(net(n)?.as_u8(&ty).to_string())
         }
+        // the payment id carried by `AddressType::Integrated` is an argument of `as_u8` too: the tag must not depend on it
+        ["net_tag", n, "Integrated", p] => { let p = unhex(p); if p.len() != 8 { return None; } Some(net(n)?.as_u8(&AddressType::Integrated(PaymentId::from_slice(&p))).to_string()) }
         ["net_of", b] => Some(match Network::from_u8(b.parse().ok()?) { Ok(n) => format!("ok {}", net_name(n)), Err(_) => "err".into() }),
         ["addrtype", n, h] => Some(match AddressType::from_slice(&unhex(h), net(n)?) {
             Ok(AddressType::Standard) => "ok Standard".into(), Ok(AddressType::SubAddress) => "ok SubAddress".into(),
@@ -35,6 +37,144 @@ pub fn run(o: &mut Out, _tier: &str, seed: u64) {
         o.stat(&format!("addrtype.{}", r.split(' ').take(2).collect::<Vec<_>>().join("_")));
     } } }
     let _ = rng.next();
+    extra(o, seed);
     o.notes.push("exhaustive: 3x3 pairs, 256 bytes, 3 networks x 256 first bytes x lengths 0..80; all cases count as non-trivial and are distinct by construction".into());
     o.exhaustive = true;
+}
+
+/// tag bytes by the book (cryptonote_config.h), written here independently of the library and of the Lean tables
+const BOOK: [(Network, [u8; 3]); 3] = [(Network::Mainnet, [18, 19, 42]), (Network::Testnet, [53, 54, 63]), (Network::Stagenet, [24, 25, 36])];
+
+/// Families added after the audit (all randomness from a generator of its own, derived from the seed):
+/// * `net_tag N Integrated <pid>`: the tag does not depend on the payment id;
+/// * payload variation: the lookup must depend on byte 0, the length and bytes 65..73 ONLY — all-zero / all-ff / random
+///   payloads, a zero payment id in a random blob, a random payment id in a zero blob, lengths beyond the observed 160;
+/// * intrinsic oracles in Rust, independent of the Lean pipeline (o.direct);
+/// * an interleaved stream `net_of` / `addrtype` / `net_tag` in random order and mixed lines that share one argument with
+///   their neighbour (state carried from one lookup into the next would show).
+fn extra(o: &mut Out, seed: u64) {
+    let mut rng = Rng::new(seed ^ 0xc20_c20_c20);
+    let kind_of = |i: usize, pid: [u8; 8]| match i { 0 => AddressType::Standard, 1 => AddressType::Integrated(PaymentId(pid)), _ => AddressType::SubAddress };
+    let kname = ["Standard", "Integrated", "SubAddress"];
+    // --- net_tag with a payment id
+    let mut pids: Vec<[u8; 8]> = vec![[0; 8], [0xff; 8], [1, 2, 3, 4, 5, 6, 7, 8], [0, 0, 0, 0, 0, 0, 0, 1], [0x80, 0, 0, 0, 0, 0, 0, 0], [18; 8], [19; 8]];
+    for _ in 0..16 { let mut p = [0u8; 8]; for b in p.iter_mut() { *b = rng.byte(); } pids.push(p); }
+    for n in NETS { for p in &pids {
+        let r = o.op(format!("net_tag {} Integrated {}", net_name(n), hex(p)), true); o.stat("net_tag.with_pid");
+        let want = BOOK.iter().find(|x| x.0 == n).unwrap().1[1];
+        o.direct(r == want.to_string(), "as_u8(N, Integrated(pid)) is the book's tag for every payment id", format!("{} {}", net_name(n), hex(p)), r, want.to_string());
+    } }
+    // --- payload variation
+    let mut firsts: Vec<u8> = BOOK.iter().flat_map(|x| x.1).collect();
+    firsts.push(0); firsts.push(rng.byte() | 0x80);
+    for n in NETS { for &b in &firsts { for len in [65usize, 72, 73, 77, 80, 161, 300, 1000] {
+        let mut pats: Vec<(&str, Vec<u8>)> = vec![("zeros", vec![0; len]), ("ff", vec![0xff; len]), ("same_as_tag", vec![b; len])];
+        { let mut x = rng.bytes(len); for i in 65..73.min(len) { x[i] = 0; } pats.push(("zero_pid_random_rest", x)); }
+        { let mut x = vec![0u8; len]; for i in 65..73.min(len) { x[i] = rng.byte(); } pats.push(("random_pid_zero_rest", x)); }
+        { let mut x = rng.bytes(len); x[64] ^= 1; pats.push(("random", x)); }
+        for _ in 0..(if len <= 80 { 6 } else { 2 }) { pats.push(("random", rng.bytes(len))); }
+        for (cat, mut x) in pats {
+            x[0] = b;
+            let r = o.op(format!("addrtype {} {}", net_name(n), hex(&x)), true);
+            o.stat(&format!("payload.{}.{}", cat, r.split(' ').take(2).collect::<Vec<_>>().join("_")));
+            // intrinsic: the answer computed here from the book
+            let row = BOOK.iter().find(|x| x.0 == n).unwrap().1;
+            let want = if b == row[0] { "ok Standard".to_string() } else if b == row[2] { "ok SubAddress".to_string() }
+                else if b == row[1] && len >= 73 { format!("ok Integrated {}", hex(&x[65..73])) } else { "err".to_string() };
+            o.direct(r == want, "from_slice(blob, N) depends on byte 0, the length and bytes 65..73 only (book table)", format!("addrtype {} {}", net_name(n), hex(&x)), r.clone(), want);
+        }
+    } } }
+    // --- intrinsic oracles on the 9 pairs
+    let mut accepted = 0;
+    for b in 0..=255u8 { if Network::from_u8(b).is_ok() { accepted += 1; } }
+    o.direct(accepted == 9, "from_u8 accepts exactly nine byte values", "0..=255".into(), accepted.to_string(), "9".into());
+    let mut tags = std::collections::BTreeSet::new();
+    for (n, row) in BOOK { for i in 0..3 {
+        let pid: [u8; 8] = { let mut p = [0u8; 8]; for b in p.iter_mut() { *b = rng.byte(); } p };
+        let t = kind_of(i, pid);
+        let tag = n.as_u8(&t); tags.insert(tag);
+        let id = format!("{} {}", net_name(n), kname[i]);
+        o.direct(tag == row[i], "as_u8(N, t) is the book's tag", id.clone(), tag.to_string(), row[i].to_string());
+        o.direct(Network::from_u8(tag).ok() == Some(n), "from_u8(as_u8(N, t)) == N", id.clone(), format!("{:?}", Network::from_u8(tag)), net_name(n).into());
+        let mut blob = vec![tag]; blob.extend(rng.bytes(64)); blob.extend_from_slice(&pid); blob.extend(rng.bytes(4));
+        let back = AddressType::from_slice(&blob, n);
+        o.direct(back.as_ref().ok() == Some(&t), "from_slice(as_u8(N, t) ‖ payload, N) == t (payment id = bytes 65..73)", format!("{} {}", id, hex(&blob)), format!("{:?}", back), format!("{:?}", t));
+        for m in NETS { if m != n { let r = AddressType::from_slice(&blob, m); o.direct(r.is_err(), "a tag of one network is rejected under another", format!("{} under {} {}", id, net_name(m), hex(&blob)), format!("{:?}", r), "Err".into()); } }
+        // the production callers of the three lookups: Address::as_bytes (network.as_u8) and Address::from_bytes (from_u8, from_slice)
+        let mk = |r: &mut Rng| { let mut k = r.arr32(); k[31] &= 0x0f; monero::PublicKey::from_private_key(&monero::PrivateKey::from_slice(&k).unwrap()) };
+        let (s, v) = (mk(&mut rng), mk(&mut rng));
+        let a = match i { 0 => monero::Address::standard(n, s, v), 1 => monero::Address::integrated(n, s, v, PaymentId(pid)), _ => monero::Address::subaddress(n, s, v) };
+        let ab = a.as_bytes();
+        o.direct(ab[0] == row[i], "Address::as_bytes starts with the book's tag", id.clone(), ab[0].to_string(), row[i].to_string());
+        let back = monero::Address::from_bytes(&ab);
+        o.direct(back.as_ref().ok() == Some(&a) && back.as_ref().map(|x| x.network == n && x.addr_type == t).unwrap_or(false), "Address::from_bytes(as_bytes(a)) == a (network and type recovered from the tag)", format!("{} {}", id, hex(&ab)), format!("{:?}", back), "a".into());
+        o.stat("direct.pair");
+    } }
+    o.direct(tags.len() == 9, "as_u8 gives nine distinct bytes", "9 pairs".into(), tags.len().to_string(), "9".into());
+    for n in NETS { let c = (0..=255u8).filter(|b| { let mut x = vec![0u8; 80]; x[0] = *b; AddressType::from_slice(&x, n).is_ok() }).count();
+        o.direct(c == 3, "from_slice accepts exactly three first bytes per network", net_name(n).into(), c.to_string(), "3".into()); }
+    // --- the whole domain against the book's literal table, directly in Rust (a changed table entry is reported with the failing input)
+    let book_net = |b: u8| BOOK.iter().find(|x| x.1.contains(&b)).map(|x| x.0);
+    for b in 0..=255u8 {
+        let r = Network::from_u8(b).ok();
+        o.direct(r == book_net(b), "from_u8(b) is the book's network for the nine tags and an error for the 247 other bytes", format!("net_of {}", b), format!("{:?}", r), format!("{:?}", book_net(b)));
+    }
+    for (n, row) in BOOK { for (i, k) in kname.iter().enumerate() { for p in pids.iter().take(9) {
+        let t = n.as_u8(&kind_of(i, *p));
+        o.direct(t == row[i], "as_u8(N, t) is the book's tag (9 pairs, several payment ids incl. all-zero and all-equal)", format!("{} {} {}", net_name(n), k, hex(p)), t.to_string(), row[i].to_string());
+    } } }
+    for (n, row) in BOOK { for b in 0..=255u8 { for len in [1usize, 64, 65, 72, 73, 74, 77] { for pat in 0..3 {
+        let mut x: Vec<u8> = match pat { 0 => vec![0u8; len], 1 => vec![b; len], _ => rng.bytes(len) }; x[0] = b;
+        let r = match AddressType::from_slice(&x, n) { Ok(AddressType::Standard) => "ok Standard".to_string(), Ok(AddressType::SubAddress) => "ok SubAddress".into(), Ok(AddressType::Integrated(p)) => format!("ok Integrated {}", hex(&p.0)), Err(_) => "err".into() };
+        let want = if b == row[0] { "ok Standard".to_string() } else if b == row[2] { "ok SubAddress".to_string() }
+            else if b == row[1] && len >= 73 { format!("ok Integrated {}", hex(&x[65..73])) } else { "err".to_string() };
+        o.direct(r == want, "from_slice(blob, N) by the book on every (network, first byte), lengths around 65 / 73 / 77, zero / all-equal / random payload", format!("addrtype {} {}", net_name(n), hex(&x)), r, want);
+    } } } }
+    // --- the SEQUENCE from_u8(b) then from_slice([b, ..], another network), for every tag b: a hand-over of the network from the
+    // first lookup to the second (thread-local, static) would skip the network test. Directly, and as consecutive operation lines.
+    for (n, row) in BOOK { for (i, &b) in row.iter().enumerate() { for m in NETS { if m == n { continue; }
+        for len in [69usize, 73, 77] {
+            let mut x = rng.bytes(len); x[0] = b;
+            let first = Network::from_u8(b).ok();
+            let second = AddressType::from_slice(&x, m);
+            o.direct(first == Some(n) && second.is_err(), "from_u8(b) immediately followed by from_slice([b, ..], another network): the tag is rejected under the other network", format!("net_of {} ; addrtype {} {}", b, net_name(m), hex(&x)), format!("{:?} ; {:?}", first, second), format!("Some({}) ; Err", net_name(n)));
+            let first = Network::from_u8(b).ok();
+            let third = AddressType::from_slice(&x, n);
+            let ok = match (&third, i) { (Ok(AddressType::Standard), 0) | (Ok(AddressType::SubAddress), 2) => true, (Ok(AddressType::Integrated(p)), 1) => len >= 73 && p.0[..] == x[65..73], (Err(_), 1) => len < 73, _ => false };
+            o.direct(first == Some(n) && ok, "from_u8(b) immediately followed by from_slice([b, ..], its own network)", format!("net_of {} ; addrtype {} {}", b, net_name(n), hex(&x)), format!("{:?}", third), kname[i].into());
+            if len != 69 { o.op(format!("net_of {}", b), false); o.op(format!("addrtype {} {}", net_name(m), hex(&x)), false); o.op(format!("net_of {}", b), false); o.op(format!("addrtype {} {}", net_name(n), hex(&x)), false); o.stat("sequence.net_of_then_addrtype"); }
+        }
+    } } }
+    // an integrated tag with a blob of EXACTLY 73 bytes (the payment id ends at the last byte) and of 72 bytes
+    for (n, row) in BOOK { for pat in 0..3 {
+        let mut x: Vec<u8> = match pat { 0 => vec![0u8; 73], 1 => vec![0xff; 73], _ => rng.bytes(73) }; x[0] = row[1];
+        let r = AddressType::from_slice(&x, n);
+        o.direct(matches!(&r, Ok(AddressType::Integrated(p)) if p.0[..] == x[65..73]), "integrated tag, blob of exactly 73 bytes: accepted, payment id = bytes 65..73", format!("addrtype {} {}", net_name(n), hex(&x)), format!("{:?}", r), "Integrated(bytes 65..73)".into());
+        o.op(format!("addrtype {} {}", net_name(n), hex(&x)), true);
+        let r = AddressType::from_slice(&x[..72], n);
+        o.direct(r.is_err(), "integrated tag, blob of 72 bytes: rejected", format!("addrtype {} {}", net_name(n), hex(&x[..72])), format!("{:?}", r), "Err".into());
+        o.op(format!("addrtype {} {}", net_name(n), hex(&x[..72])), true);
+    } }
+    // --- interleaved stream and mixed lines
+    let all_tags: Vec<u8> = BOOK.iter().flat_map(|x| x.1).collect();
+    let mut prev: Option<(Network, Vec<u8>)> = None;
+    for _ in 0..700 {
+        let b = if rng.chance(3, 4) { *rng.pick(&all_tags) } else { rng.byte() };
+        let n = *rng.pick(&NETS);
+        match rng.below(4) {
+            0 => { o.op(format!("net_of {}", b), false); }
+            1 => { let k = *rng.pick(&kname); if k == "Integrated" && rng.chance(1, 2) { let p = rng.bytes(8); o.op(format!("net_tag {} Integrated {}", net_name(n), hex(&p)), false); } else { o.op(format!("net_tag {} {}", net_name(n), k), false); } }
+            _ => {
+                let len = *rng.pick(&[1usize, 64, 72, 73, 77]);
+                let mut x = rng.bytes(len); x[0] = b;
+                // a mixed line: the previous blob under this network, or this blob's payload behind the previous tag
+                if let Some((pn, px)) = &prev { if rng.chance(1, 3) { o.op(format!("addrtype {} {}", net_name(n), hex(px)), false); o.stat("interleaved.mixed"); }
+                    else if rng.chance(1, 3) { let mut y = x.clone(); y[0] = px[0]; o.op(format!("addrtype {} {}", net_name(*pn), hex(&y)), false); o.stat("interleaved.mixed"); } }
+                o.op(format!("addrtype {} {}", net_name(n), hex(&x)), false);
+                prev = Some((n, x));
+            }
+        }
+        o.stat("interleaved");
+    }
+    o.notes.push("added families: net_tag with 23 payment ids per network; payload variation (3 networks x 11 first bytes x 8 lengths up to 1000 x 12-16 payload patterns incl. zero payment id / zero rest / all-equal bytes), each also checked in Rust against the book table; intrinsic oracles on the 9 pairs incl. Address::as_bytes / from_bytes; 700 interleaved lookups in random order with mixed lines".into());
 }
